@@ -808,6 +808,18 @@ fn cmd_cmap(nmap: usize) {
             evaluated += 1;
             if uni(&code(v)).as_deref() != Some(want) && bad.len() < 8 { bad.push(format!("{{\"width\":{width},\"code\":\"{}\",\"expected\":{},\"got\":{}}}", hex(&code(v)), js(want), js(&format!("{:?}", uni(&code(v)))))); }
         }
+        // a range of more than 256 codes (offsets above 255 need the carry beyond the last byte)
+        if width >= 2 {
+            let text2 = format!("/CIDInit /ProcSet findresource begin\n12 dict begin\nbegincmap\n1 begincodespacerange\n<{}> <{}>\nendcodespacerange\n1 beginbfrange\n<{}> <{}> <0041>\nendbfrange\nendcmap\n", hex(&lo), hex(&hi), hex(&code(0x20)), hex(&code(0x420)));
+            if let Ok(cm2) = CMap::parse(text2.as_bytes()) {
+                for v in 0x20u32..=0x420 {
+                    evaluated += 1;
+                    let want = char::from_u32(0x41 + (v - 0x20)).unwrap().to_string();
+                    let got = cm2.map(&code(v)).and_then(|m| cm2.to_unicode(&m));
+                    if got.as_deref() != Some(want.as_str()) && bad.len() < 8 { bad.push(format!("{{\"width\":{width},\"range\":\"<0020> <0420> <0041>\",\"code\":\"{}\",\"expected\":{},\"got\":{}}}", hex(&code(v)), js(&want), js(&format!("{:?}", got)))); }
+                }
+            } else { bad.push(format!("{{\"what\":\"parse of the long-range CMap failed\",\"width\":{width}}}")); }
+        }
         // neighbours of the ranges are not mapped by them
         for v in [r_lo - 1, r_hi + 1, 0x3F, 0x43, 4, 6] {
             evaluated += 1;
@@ -1009,6 +1021,45 @@ fn cmd_crypto_ref(npw: usize) {
         }
     }
     println!("{{\"cmd\":\"crypto-ref\",\"bound\":\"Algorithms 2/3/4/5 for R2 (5-byte key) and R3 (5,7,10,13,15,16-byte keys) x 24 passwords; Algorithm 2.B for {npw} passwords x 2 /U inputs; reference transcribed from ISO 32000-1/-2 on md5/sha2/aes\",\"evaluated\":{},\"disagreements\":[{}]}}", evaluated, bad.join(","));
+}
+
+// C24 Eb: raw RGBA / grey+alpha buffers -> Image -> image XObject + soft mask, decoded the way a consumer decodes them (rows start on
+// byte boundaries, BitsPerComponent / ColorSpace / Filter taken from the dictionaries): colour samples and alpha must be the ones
+// supplied. Widths 1..17 (not only multiples of 8), heights 1..3, alpha patterns: opaque, binary, graded.
+fn cmd_image_alpha() {
+    use oxidize_pdf::graphics::Image;
+    use oxidize_pdf::objects::Object;
+    use std::io::Read;
+    let mut evaluated = 0u64; let mut bad: Vec<String> = vec![];
+    let int = |o: Option<&Object>| -> Option<usize> { match o { Some(Object::Integer(i)) => Some(*i as usize), _ => None } };
+    // samples of a single-plane or multi-component image stream, unpacked to 8 bits, rows byte-aligned
+    let unpack = |dict: &oxidize_pdf::objects::Dictionary, data: &[u8], comps: usize| -> Result<Vec<u8>, String> {
+        let raw = match dict.get("Filter") { Some(Object::Name(n)) if n == "FlateDecode" => { let mut out = vec![]; flate2::read::ZlibDecoder::new(data).read_to_end(&mut out).map_err(|e| e.to_string())?; out }, None => data.to_vec(), other => return Err(format!("unexpected /Filter {:?}", other)) };
+        let (w, h, bpc) = (int(dict.get("Width")).ok_or("Width")?, int(dict.get("Height")).ok_or("Height")?, int(dict.get("BitsPerComponent")).ok_or("BitsPerComponent")?);
+        if ![1usize, 2, 4, 8].contains(&bpc) { return Err(format!("BitsPerComponent {bpc}")); }
+        let row_bytes = (w * comps * bpc + 7) / 8;
+        if raw.len() < row_bytes * h { return Err(format!("stream too short: {} bytes for {w}x{h}x{comps} at {bpc} bpc", raw.len())); }
+        let max = (1u32 << bpc) - 1; let mut out = vec![];
+        for y in 0..h { let row = &raw[y * row_bytes..(y + 1) * row_bytes]; for x in 0..w * comps { let bit = x * bpc; let v = ((row[bit / 8] as u32) >> (8 - bpc - (bit % 8))) & max; out.push((v * 255 / max) as u8); } }
+        Ok(out)
+    };
+    for w in 1usize..=17 { for h in 1usize..=3 { for pat in 0..4 {
+        let alpha = |x: usize, y: usize| -> u8 { match pat { 0 => 255, 1 => if (x + y) % 2 == 0 { 255 } else { 0 }, 2 => if x % 3 == 0 { 0 } else { 255 }, _ => ((x * 37 + y * 91) % 256) as u8 } };
+        let mut rgba = vec![]; let mut want_rgb = vec![]; let mut want_a = vec![];
+        for y in 0..h { for x in 0..w { let px = [(x * 13 + y * 7) as u8, (x * 5 + 100) as u8, (y * 60 + 3) as u8]; rgba.extend_from_slice(&px); rgba.push(alpha(x, y)); want_rgb.extend_from_slice(&px); want_a.push(alpha(x, y)); } }
+        evaluated += 1;
+        let r = panic::catch_unwind(|| -> Result<(Vec<u8>, Option<Vec<u8>>), String> {
+            let image = Image::from_rgba_data(rgba.clone(), w as u32, h as u32).map_err(|e| e.to_string())?;
+            let (img, smask) = image.to_pdf_object_with_transparency().map_err(|e| e.to_string())?;
+            let rgb = match &img { Object::Stream(d, data) => unpack(d, data, 3)?, _ => return Err("image is not a stream".into()) };
+            let a = match &smask { Some(Object::Stream(d, data)) => Some(unpack(d, data, 1)?), None => None, _ => return Err("SMask is not a stream".into()) };
+            Ok((rgb, a))
+        });
+        let ok = match &r { Ok(Ok((rgb, a))) => *rgb == want_rgb && match a { Some(a) => *a == want_a, None => want_a.iter().all(|v| *v == 255) }, _ => false };
+        if !ok && bad.len() < 6 { bad.push(format!("{{\"width\":{w},\"height\":{h},\"alpha_pattern\":{pat},\"expected_alpha\":{:?},\"got\":{}}}", want_a, js(&format!("{:?}", r.map(|x| x.map(|(_, a)| a)).map_err(|_| "PANIC")).chars().take(300).collect::<String>()))); } else if !ok { bad.push(String::new()); }
+    } } }
+    let n = bad.len(); bad.retain(|b| !b.is_empty());
+    println!("{{\"cmd\":\"image-alpha\",\"bound\":\"RGBA buffers of width 1..17 x height 1..3 x 4 alpha patterns (opaque, two binary, graded) -> image XObject + SMask decoded with byte-aligned rows\",\"evaluated\":{},\"disagreement_count\":{},\"disagreements\":[{}]}}", evaluated, n, bad.join(","));
 }
 
 fn cmd_fmt() {
@@ -1529,6 +1580,7 @@ fn main() {
         Some("a85hex-roundtrip") => cmd_a85hex_roundtrip(args.get(2).and_then(|s| s.parse().ok()).unwrap_or(4)),
         Some("fmt") => cmd_fmt(),
         Some("opnames") => cmd_opnames(),
+        Some("image-alpha") => cmd_image_alpha(),
         Some("crypto-ref") => cmd_crypto_ref(args.get(2).and_then(|s| s.parse().ok()).unwrap_or(120)),
         Some("pageops") => cmd_pageops(),
         Some("cmap") => cmd_cmap(args.get(2).and_then(|s| s.parse().ok()).unwrap_or(2)),
